@@ -14,6 +14,19 @@ pub struct Case {
     pub limit: usize,
     pub padded: bool,
     pub seed: Option<u64>,
+    /// the item sizes are `sizes` repeated this many times (0 = once): long streams without long cases
+    #[serde(default)]
+    pub repeat: usize,
+}
+
+impl Case {
+    pub fn all_sizes(&self) -> Vec<usize> {
+        let mut v = Vec::with_capacity(self.sizes.len() * self.repeat.max(1));
+        for _ in 0..self.repeat.max(1) {
+            v.extend_from_slice(&self.sizes);
+        }
+        v
+    }
 }
 
 pub struct C06;
@@ -31,7 +44,7 @@ impl ItemSize for Item {
 }
 
 fn run(c: &Case) -> Result<Vec<Vec<Item>>, String> {
-    let items: Vec<Item> = c.sizes.iter().enumerate().map(|(id, size)| Item { id, size: *size }).collect();
+    let items: Vec<Item> = c.all_sizes().iter().enumerate().map(|(id, size)| Item { id, size: *size }).collect();
     let n = items.len();
     let mut it = items.into_iter().batched(
         c.sort,
@@ -78,10 +91,10 @@ impl Prop for C06 {
     fn fuzz_decode(bytes: &[u8]) -> Option<Case> {
         crate::fuzzdec::c06(bytes)
     }
-    const RULE: &'static str = "item size vectors (n <= 40, occasionally up to 300, sizes from {0,1,2,3,5,8,L-1,L,L+1,3L} and all-equal vectors) x sort x shuffle x prefetch_factor 0..=5 x batch_limit in 0..=16 or 64 x {BatchSize, PaddedItemSize} x seed (Some, occasionally None). Oracle: end of iteration within n+2 calls, batches partition the ids, no empty batch, every batch with > 1 item within the limit, same seed => same batches; without sort/shuffle the concatenation is the input order and every batch but the last is greedy-maximal. Non-trivial: >= 2 batches and (an oversized or zero-size item, or sort+shuffle with a buffer shorter than three batches). Distinct = distinct serialised case.";
+    const RULE: &'static str = "item size vectors (n <= 40, occasionally up to 300, sizes from {0,1,2,3,5,8,L-1,L,L+1,3L} and all-equal vectors) x sort x shuffle x prefetch_factor 0..=5 x batch_limit in 0..=16 or 64 x {BatchSize, PaddedItemSize} x seed (Some, occasionally None); one case in 4000 is a stream of 51000-96000 items (a 30-40 item pattern repeated) with a prefetch budget above 2^16. Oracle: end of iteration within n+2 calls, batches partition the ids, no empty batch, every batch with > 1 item within the limit, same seed => same batches; without sort/shuffle the concatenation is the input order and every batch but the last is greedy-maximal. Non-trivial: >= 2 batches and (an oversized or zero-size item, or sort+shuffle with a buffer shorter than three batches). Distinct = distinct serialised case.";
     const CLAIMS_TERMINATION: bool = true;
     const HANG_SECS: u64 = 20;
-    const ESSENTIAL: &'static [&'static str] = &["plain", "sort", "shuffle", "sort+shuffle", "oversized", "zero_size", "padded", "batch_size", "limit_0", "seed_none", "no_fitting_subsequence"];
+    const ESSENTIAL: &'static [&'static str] = &["plain", "sort", "shuffle", "sort+shuffle", "oversized", "zero_size", "padded", "batch_size", "limit_0", "seed_none", "no_fitting_subsequence", "more_than_65536_items"];
 
     fn budget(tier: Tier) -> Budget {
         match tier {
@@ -91,7 +104,18 @@ impl Prop for C06 {
     }
 
     fn strategy(_tier: Tier, _shard: u32) -> BoxedStrategy<Case> {
-        prop_oneof![16 => 0usize..=16, 2 => Just(64usize), 1 => 17usize..=300]
+        // long streams: more items than any plausible internal buffer or counter (> 2^16), with a
+        // prefetch budget that lets the sort/shuffle buffer grow beyond 2^16 as well
+        let huge = (
+            proptest::collection::vec(prop_oneof![3 => Just(1usize), 1 => Just(2usize), 1 => Just(0usize), 1 => Just(7usize)], 30..=40),
+            any::<bool>(),
+            any::<bool>(),
+            prop_oneof![Just((20000usize, 4usize)), Just((70000usize, 1usize)), Just((16usize, 2usize)), Just((300usize, 300usize))],
+            0u64..8,
+            1700usize..=2400,
+        )
+            .prop_map(|(sizes, sort, shuffle, (limit, prefetch), seed, repeat)| Case { sizes, sort, shuffle, prefetch, limit, padded: false, seed: Some(seed), repeat });
+        let usual = prop_oneof![16 => 0usize..=16, 2 => Just(64usize), 1 => 17usize..=300]
             .prop_flat_map(|limit| {
                 let l = limit.max(1);
                 let size = prop_oneof![
@@ -127,9 +151,10 @@ impl Prop for C06 {
                         limit,
                         padded,
                         seed,
+                        repeat: 0,
                     })
-            })
-            .boxed()
+            });
+        prop_oneof![4000 => usual, 1 => huge].boxed()
     }
 
     fn assumptions() -> Vec<String> {
@@ -141,8 +166,11 @@ impl Prop for C06 {
 
     fn check(c: &Case, _strict: bool) -> Outcome {
         let mut out = Outcome::new();
+        let all = c.all_sizes();
+        let c = &Case { sizes: all, repeat: 0, ..c.clone() };
         let n = c.sizes.len();
         let l = c.limit.max(1);
+        out.label_if(n > 65536, "more_than_65536_items");
         out.label(match (c.sort, c.shuffle) {
             (false, false) => "plain",
             (true, false) => "sort",
@@ -178,7 +206,11 @@ impl Prop for C06 {
                 ensure!(out, m <= l, "batch {bi} has {} items with measure {m} > limit {l}: sizes {:?}", b.len(), b.iter().map(|i| i.size).collect::<Vec<_>>());
             }
         }
-        ensure!(out, seen.iter().all(|s| *s == 1), "items are not in exactly one batch each: occurrence counts {seen:?}");
+        if let Some(bad) = seen.iter().position(|s| *s != 1) {
+            let shown: Vec<usize> = seen.iter().copied().take(64).collect();
+            out.fail(format!("items are not in exactly one batch each: item {bad} occurs {} times (occurrence counts of the first items: {shown:?})", seen[bad]));
+            return out;
+        }
         // determinism
         if c.seed.is_some() {
             match run(c) {
@@ -191,7 +223,7 @@ impl Prop for C06 {
         }
         if !c.sort && !c.shuffle {
             let flat: Vec<usize> = batches.iter().flatten().map(|i| i.id).collect();
-            ensure!(out, flat == (0..n).collect::<Vec<_>>(), "without sort/shuffle the concatenation of the batches is not the input order: {flat:?}");
+            ensure!(out, flat == (0..n).collect::<Vec<_>>(), "without sort/shuffle the concatenation of the batches is not the input order: {:?}", &flat[..flat.len().min(64)]);
             for k in 0..batches.len().saturating_sub(1) {
                 let mut ext = batches[k].clone();
                 ext.push(batches[k + 1][0].clone());
